@@ -159,8 +159,10 @@ def all_rule_ids():
 
         pm = PluginManager(Pres())
         pm.initialize(plugin_dir(), [], "", "", ApplicationProperties(), False, False)
+        # MD999 (plugins/plugin_one.py) is the project's debug-only sample plugin: it print()s
+        # every callback; it is never enabled by the harnesses (stated in evidence).
         _ALL_IDS = sorted(
-            p.plugin_id.lower() for p in pm._PluginManager__registered_plugins
+            p.plugin_id.lower() for p in pm._PluginManager__registered_plugins if p.plugin_id.lower() != "md999"
         )
     return list(_ALL_IDS)
 
@@ -259,3 +261,7 @@ def prepare_main():
     untraced(PyMarkdownLint, "__init__")
     untraced(PyMarkdownLint, "_PyMarkdownLint__initialize_subsystems")
     untraced(PyMarkdownLint, "_PyMarkdownLint__initialize_parser")
+
+from engine import models  # noqa: E402
+
+models.install()
